@@ -61,7 +61,9 @@ check("C16",
            "sequences of length <= 4 (quick) / <= 5 (thorough) over 15 (parameter,value) pairs incl. rebinding, all parameters queried "
            "after every step; and ALL histories of length <= 5 (quick) / <= 6 (thorough) over the alphabet {15 bindings + 5 queries} "
            "(queries and rebindings interleaved in every order), each on a fresh Lexicon, every query compared (by node identity) with a "
-           "std::map last-write-wins model. distinct_nontrivial = distinct final maps reached.",
+           "std::map last-write-wins model; every binding sequence of length <= 3 with a second Lexicon (holding a general substitution of its "
+           "own) created before step i and destroyed before step j, all i <= j; 1100 (70000) elementary substitutions from one Lexicon, all "
+           "queried again afterwards. distinct_nontrivial = distinct final maps reached.",
       text="Every operation sequence up to the bound is executed on the real substitution classes and compared with "
            "a reference map after every step.",
       note="Parameters come from two parameter lists (two share a name); one value is itself a parameter so that a "
